@@ -232,6 +232,43 @@ def run(ctx):
 
     sign_signable_rules(ctx.sub("DEP-C09"), "R2")
     _signer_callers(ctx)
+    _session_saves_what_it_signs(ctx)
+
+
+def _session_saves_what_it_signs(ctx, rule="R8"):
+    """an interactive load - edit/sign - save session built from nested functions over one working
+    copy (cli.interactive_modify_metadata): the function that saves hands the writer the very
+    variable that the functions adding signatures hand the signer"""
+    import ast
+
+    from sa.model import dotted_chain
+
+    eng, prog = ctx.eng, ctx.prog
+    n = 0
+    for q, fi in sorted(prog.funcs.items()):
+        if fi.parent is not None:
+            continue
+        nested = [x for x in ast.walk(fi.node) if isinstance(x, ast.FunctionDef) and x is not fi.node]
+        signed_vars, saved = set(), []
+        for nf in nested:
+            for c in ast.walk(nf):
+                if not (isinstance(c, ast.Call) and c.args and isinstance(c.args[0], ast.Name)):
+                    continue
+                chain = dotted_chain(c.func)
+                r = prog.resolve_dotted(fi.mod, chain)[0] if chain else ("?",)
+                if r[0] != "func":
+                    continue
+                if r[1] in SIGNERS_IN_MEMORY:
+                    signed_vars.add(c.args[0].id)
+                elif r[1] == "common.write_metadata_to_file":
+                    saved.append((nf.name, c.args[0].id, prog.site(fi.mod, c, q + "." + nf.name)))
+        if not signed_vars or not saved:
+            continue
+        n += 1
+        for fname, var, st_ in saved:
+            ok = var in signed_vars
+            ctx.ob(rule, "session-saves-working-copy|%s.%s" % (q, fname), st_.loc(), "%s.%s writes %s, %s" % (q, fname, var, "the envelope the session's signing steps sign (%s)" % ", ".join(sorted(signed_vars)) if ok else "but the session's signing steps sign %s: what is stored is not the envelope that was signed (added signatures and edits are lost)" % ", ".join(sorted(signed_vars))), ok)
+    ctx.count(rule + ".sessions", n)
 
 
 SIGNERS_IN_MEMORY = ("signing.sign_signable", "root_signing.sign_root_metadata_dict_via_gpg")
